@@ -323,6 +323,22 @@ def _remove_string_datatypes(mapping_graph):
     return mapping_graph
 
 
+def _get_subject_map_references(rml_rule):
+    """
+    Retrieves the references in the subject map of a mapping rule. Returns None if the references cannot be obtained
+    from the mapping rule alone (e.g. function-valued subject maps).
+    """
+
+    if rml_rule['subject_map_type'] == RML_TEMPLATE:
+        return set(get_references_in_template(rml_rule['subject_map_value']))
+    elif rml_rule['subject_map_type'] == RML_REFERENCE:
+        return {rml_rule['subject_map_value']}
+    elif rml_rule['subject_map_type'] == RML_CONSTANT:
+        return set()
+
+    return None
+
+
 def _get_join_conditions_dict(join_query_results):
     """
     Creates a dictionary with the results of the JOIN_CONDITION_PARSING_QUERY. The keys are the identifiers of the
@@ -826,6 +842,12 @@ class MappingParser:
                     except:
                         # eval() has failed because there are no join conditions, the join can be removed
                         remove_join = True
+
+                    # a join relates a row to every row with the same (non-NULL) values in the join references, it is
+                    # only equivalent to the row itself if the parent subject map uses exactly the join references
+                    join_references = set(get_references_in_join_condition(rml_rule, 'object_join_conditions')[1])
+                    if join_references and join_references != _get_subject_map_references(parent_triples_map_rule):
+                        remove_join = False
 
                     if remove_join and pd.notna(rml_rule['object_join_conditions']):
                         self.rml_df.at[i, 'object_map_type'] = parent_triples_map_rule.at['subject_map_type']
